@@ -36,40 +36,144 @@ Definition wf2 (R : resolver) : Prop := wf R /\ iif_ok (r_pkgs R) (r_iif R).
 Lemma new_resolver_wf2 U : wf2 (new_resolver U).
 Proof. split; [apply new_resolver_wf | apply build_iif_ok]. Qed.
 
+Lemma NoDup_app_single0 {A} (l : list A) x : NoDup l -> ~ In x l -> NoDup (l ++ [x]).
+Proof.
+  induction l as [|a l IH]; simpl; intros H N; [constructor; [intros []|constructor]|].
+  inversion H as [|? ? Ha Hl]; subst. constructor.
+  - intro Hc. apply in_app_or in Hc. destruct Hc as [Hc|[Hc|[]]]; [contradiction | subst; apply N; left; reflexivity].
+  - apply IH; [exact Hl | intro Hc; apply N; right; exact Hc].
+Qed.
+
 (* ---- the install_if loop only appends install_if packages --------------------------- *)
 Definition from_iif (R : resolver) (j : pid) : Prop := valid R j /\ has_iif (getp R j) = true.
 
-Lemma iif_visit_inv R key deps added l0 : wf2 R ->
-  Forall (fun j => In j l0 \/ from_iif R j) deps ->
-  Forall (fun j => In j l0 \/ from_iif R j) (fst (iif_visit R key (deps, added))).
+Lemma iif_visit_inv R j added : wf2 R -> Forall (from_iif R) (fst (iif_visit R j added)).
 Proof.
-  intros [[_ Hv] Hi] H. unfold iif_visit. destruct (alookup key added) as [j|]; [|exact H].
-  match goal with |- context [match ?x with Some _ => _ | None => _ end] => destruct x as [l|] eqn:EL end; [|exact H].
+  intros [[_ Hv] Hi]. unfold iif_visit.
+  match goal with |- context [match ?x with Some _ => _ | None => _ end] => destruct x as [l|] eqn:EL end; [|constructor].
   assert (Hl : forall q, In q l -> from_iif R q).
   { intros q Hq.
     assert (exists k, alookup k (r_iif R) = Some l) as [k Hk].
-    { destruct (alookup key (r_iif R)) eqn:E1; [inversion EL; subst; eexists; exact E1 | eexists; exact EL]. }
+    { destruct (alookup (k_name (getp R j)) (r_iif R)) eqn:E1; [inversion EL; subst; eexists; exact E1 | eexists; exact EL]. }
     split.
     - eapply nm_lookup_valid; eassumption.
     - apply alookup_In in Hk. unfold iif_ok in Hi. rewrite Forall_forall in Hi. specialize (Hi _ Hk). simpl in Hi.
       rewrite Forall_forall in Hi. apply Hi. exact Hq. }
-  clear EL. revert deps added H. induction l as [|q l IH]; intros deps added H; [exact H|].
-  cbn [fold_left].
-  destruct (forallb (iif_matches R added) (k_iifs (getp R q)) && negb (ahas (k_name (getp R q)) added)).
-  - apply IH; [intros q' Hq'; apply Hl; right; exact Hq'|].
-    apply Forall_app. split; [exact H|]. constructor; [|constructor]. right. apply Hl. left. reflexivity.
-  - apply IH; [intros q' Hq'; apply Hl; right; exact Hq' | exact H].
+  clear EL.
+  assert (G : forall l news added, (forall q, In q l -> from_iif R q) -> Forall (from_iif R) news ->
+    Forall (from_iif R) (fst (fold_left (fun st q =>
+        let '(news, added) := st in
+        let kq := getp R q in
+        if forallb (iif_matches R added) (k_iifs kq) && negb (ahas (k_name kq) added)
+        then (news ++ [q], added ++ [(k_name kq, q)]) else st) l (news, added)))).
+  { clear l Hl. induction l as [|q l IH]; intros news added0 Hl H; [exact H|].
+    cbn [fold_left].
+    destruct (forallb (iif_matches R added0) (k_iifs (getp R q)) && negb (ahas (k_name (getp R q)) added0)).
+    - apply IH; [intros q' Hq'; apply Hl; right; exact Hq'|].
+      apply Forall_app. split; [exact H|]. constructor; [|constructor]. apply Hl. left. reflexivity.
+    - apply IH; [intros q' Hq'; apply Hl; right; exact Hq' | exact H]. }
+  apply G; [exact Hl | constructor].
 Qed.
 
-Lemma iif_loop_inv R sched l added : wf2 R ->
-  Forall (fun j => In j l \/ from_iif R j) (iif_loop R sched l added).
+(* whatever holds of the list the loop starts with and of every install_if
+   package holds of the list it returns; the initial list is a prefix *)
+Lemma iif_loop_inv R (P : pid -> Prop) : wf2 R -> (forall j, from_iif R j -> P j) ->
+  forall fuel i deps added r, Forall P deps -> iif_loop fuel R i deps added = Ok r -> Forall P r.
 Proof.
-  intros Hwf. unfold iif_loop.
-  assert (G : forall sched st, Forall (fun j => In j l \/ from_iif R j) (fst st) ->
-              Forall (fun j => In j l \/ from_iif R j) (fst (fold_left (fun st key => iif_visit R key st) sched st))).
-  { induction sched0 as [|key s IH]; intros st H; [exact H|]. simpl. apply IH. destruct st as [deps added'].
-    apply iif_visit_inv; assumption. }
-  apply G. simpl. rewrite Forall_forall. intros j Hj. left. exact Hj.
+  intros Hwf HP. induction fuel as [|f IH]; intros i deps added r H E; cbn [iif_loop] in E.
+  - destruct (nth_error deps i); [discriminate | inversion E; subst; exact H].
+  - destruct (nth_error deps i) as [j|]; [|inversion E; subst; exact H].
+    pose proof (iif_visit_inv R j added Hwf) as HV.
+    destruct (iif_visit R j added) as [news added']. cbn [fst] in HV.
+    apply IH in E; [exact E|]. apply Forall_app. split; [exact H|].
+    rewrite Forall_forall in *. intros q Hq. apply HP. apply HV. exact Hq.
+Qed.
+
+Lemma iif_loop_prefix R : forall fuel i deps added r, iif_loop fuel R i deps added = Ok r -> exists extra, r = deps ++ extra.
+Proof.
+  induction fuel as [|f IH]; intros i deps added r E; cbn [iif_loop] in E.
+  - destruct (nth_error deps i); [discriminate | inversion E; subst; exists []; rewrite app_nil_r; reflexivity].
+  - destruct (nth_error deps i) as [j|]; [|inversion E; subst; exists []; rewrite app_nil_r; reflexivity].
+    destruct (iif_visit R j added) as [news added']. apply IH in E. destruct E as [extra ->].
+    exists (news ++ extra). rewrite app_assoc. reflexivity.
+Qed.
+
+(* ---- the install_if loop ends: `added` has one key per entry of the list, the keys
+   are distinct package names (or "", the name behind an index out of range) ---------- *)
+Definition iif_state_ok (R : resolver) (deps : list pid) (added : list (string * pid)) : Prop :=
+  List.map fst added = List.map (nm R) deps /\ NoDup (List.map fst added).
+
+Lemma ahas_false_notin {A} k (m : list (string * A)) : ahas k m = false -> ~ In k (List.map fst m).
+Proof.
+  unfold ahas. induction m as [|[k' v] m IH]; simpl; intros H; [intros []|].
+  destruct (String.eqb k' k) eqn:E; [discriminate|]. apply String.eqb_neq in E.
+  intros [Hc|Hc]; [exact (E Hc) | exact (IH H Hc)].
+Qed.
+
+Lemma dedup_state_ok R ds l added : dedup_by_name R ds = (l, added) -> iif_state_ok R l added.
+Proof.
+  unfold dedup_by_name. intros E.
+  assert (G : forall ds acc acc', iif_state_ok R (fst acc) (snd acc) ->
+            fold_left (fun acc j => let '(l, added) := acc in let n := k_name (getp R j) in
+                          if ahas n added then acc else (l ++ [j], added ++ [(n, j)])) ds acc = acc' ->
+            iif_state_ok R (fst acc') (snd acc')).
+  { clear. induction ds as [|d ds IH]; intros acc acc' H E; [subst; exact H|]. cbn [fold_left] in E. eapply IH; [|exact E].
+    destruct acc as [l added]. destruct (ahas (k_name (getp R d)) added) eqn:EA; [exact H|].
+    cbn [fst snd] in *. destruct H as [H1 H2]. split.
+    - rewrite !map_app, H1. reflexivity.
+    - rewrite map_app. simpl. apply NoDup_app_single0; [exact H2 | apply ahas_false_notin; exact EA]. }
+  apply (G ds ([], []) (l, added)); [split; [reflexivity | constructor] | exact E].
+Qed.
+
+Lemma iif_visit_state_ok R j deps added news added' : iif_state_ok R deps added ->
+  iif_visit R j added = (news, added') -> iif_state_ok R (deps ++ news) added'.
+Proof.
+  intros H. unfold iif_visit.
+  match goal with |- context [match ?x with Some _ => _ | None => _ end] => destruct x as [l|] end;
+    [|intros E; inversion E; subst; rewrite app_nil_r; exact H].
+  assert (G : forall l news0 added0, iif_state_ok R (deps ++ news0) added0 ->
+    forall news added', fold_left (fun st q =>
+        let '(news, added) := st in
+        let kq := getp R q in
+        if forallb (iif_matches R added) (k_iifs kq) && negb (ahas (k_name kq) added)
+        then (news ++ [q], added ++ [(k_name kq, q)]) else st) l (news0, added0) = (news, added') ->
+    iif_state_ok R (deps ++ news) added').
+  { clear. induction l as [|q l IH]; intros news0 added0 H news added' E; [inversion E; subst; exact H|].
+    cbn [fold_left] in E.
+    destruct (forallb (iif_matches R added0) (k_iifs (getp R q)) && negb (ahas (k_name (getp R q)) added0)) eqn:EB;
+      [|eapply IH; eassumption].
+    eapply IH; [|exact E]. apply andb_true_iff in EB. destruct EB as [_ EB]. apply negb_true_iff in EB.
+    destruct H as [H1 H2]. split.
+    - rewrite app_assoc, !map_app, H1, map_app. reflexivity.
+    - rewrite map_app. simpl. apply NoDup_app_single0; [exact H2 | apply ahas_false_notin; exact EB]. }
+  intros E. eapply G; [|exact E]. rewrite app_nil_r. exact H.
+Qed.
+
+Lemma nm_in_names R j : In (nm R j) ("" :: names_of R).
+Proof.
+  unfold nm, getp, names_of. destruct (Nat.lt_ge_cases j (List.length (r_pkgs R))) as [L|L].
+  - right. apply nodup_In. apply in_map. apply nth_In. exact L.
+  - left. rewrite nth_overflow by exact L. reflexivity.
+Qed.
+
+Lemma iif_state_length R deps added : iif_state_ok R deps added -> List.length deps <= S (List.length (names_of R)).
+Proof.
+  intros [H1 H2]. rewrite <- (map_length (nm R) deps), <- H1.
+  change (S (List.length (names_of R))) with (List.length ("" :: names_of R)).
+  apply NoDup_incl_length; [exact H2|]. rewrite H1. intros n Hn. apply in_map_iff in Hn. destruct Hn as [j [<- _]].
+  apply nm_in_names.
+Qed.
+
+Lemma iif_loop_fuel R : forall fuel i deps added, iif_state_ok R deps added ->
+  S (List.length (names_of R)) < fuel + i -> iif_loop fuel R i deps added <> OutOfFuel.
+Proof.
+  induction fuel as [|f IH]; intros i deps added H L; cbn [iif_loop].
+  - destruct (nth_error deps i) eqn:E; [|discriminate]. exfalso.
+    assert (i < List.length deps) by (apply nth_error_Some; congruence).
+    pose proof (iif_state_length R deps added H). simpl in L. lia.
+  - destruct (nth_error deps i) as [j|]; [|discriminate].
+    destruct (iif_visit R j added) as [news added'] eqn:EV. apply IH; [|lia].
+    eapply iif_visit_state_ok; eassumption.
 Qed.
 
 Lemma dedup_sub R deps : forall j, In j (fst (dedup_by_name R deps)) -> In j deps.
@@ -89,8 +193,8 @@ Qed.
 Definition member_ok (R : resolver) (dq0 : list pid) (j : pid) : Prop :=
   valid R j /\ (~ In j dq0 \/ has_iif (getp R j) = true).
 
-Lemma get_pkg_spec R w sched dq sel ex dq' sel' i deps dq0 : wf2 R -> incl dq0 dq ->
-  get_pkg R w sched dq sel ex = Ok (dq', sel', i, deps) ->
+Lemma get_pkg_spec R w dq sel ex dq' sel' i deps dq0 : wf2 R -> incl dq0 dq ->
+  get_pkg R w dq sel ex = Ok (dq', sel', i, deps) ->
   incl dq0 dq' /\ In i (candidates R dq w) /\ member_ok R dq0 i /\ Forall (member_ok R dq0) deps.
 Proof.
   intros Hwf2 Hin H. pose proof Hwf2 as [Hwf _]. unfold get_pkg, get_pkg_core in H.
@@ -100,10 +204,14 @@ Proof.
     as [[st' ds]| | |] eqn:EG; cbn [rbind] in H; try discriminate.
   apply (resolve_package_spec R dq w i0 Hwf) in ER. destruct ER as [E1 [E2 E3]].
   apply (get_deps_inv R Hwf) in EG. destruct EG as [G1 G2]. cbn [st_dq] in G1, G2.
-  destruct (dedup_by_name R ds) as [l added] eqn:ED. cbn [rbind] in H. inversion H; subst. clear H.
+  destruct (dedup_by_name R ds) as [l added] eqn:ED. cbn [rbind] in H.
+  destruct (iif_loop (fuel_bound R) R 0 l added) as [deps0| | |] eqn:EI; cbn [rbind] in H; try discriminate.
+  inversion H; subst. clear H.
   split; [eapply incl_tran; eassumption|]. split; [exact E1|]. split.
   - split; [exact E2|]. left. intro Hc. apply E3. apply Hin. exact Hc.
-  - pose proof (iif_loop_inv R sched l added Hwf2) as HL. rewrite Forall_forall in *. intros j Hj.
+  - pose proof (iif_loop_inv R (fun j => In j l \/ from_iif R j) Hwf2 (fun j Hj => or_intror Hj) _ _ _ _ _
+                  (proj2 (Forall_forall _ l) (fun j Hj => or_introl Hj)) EI) as HL.
+    rewrite Forall_forall in *. intros j Hj.
     specialize (HL j Hj). destruct HL as [HL|[V I]].
     + assert (In j ds) by (apply (dedup_sub R); rewrite ED; exact HL).
       specialize (G2 j H). destruct G2 as [V N]. split; [exact V|]. left. intro Hc. apply N. apply Hin. exact Hc.
@@ -150,21 +258,21 @@ Proof.
   destruct (IH _ I1 Hds) as [J1 J2]. split; [exact J1|]. intros n Hn. apply J2. apply I2. exact Hn.
 Qed.
 
-Lemma phase2_inv R dq0 : wf2 R -> forall ws scheds dq sel acc S,
-  phase2 R ws scheds dq sel acc = Ok S -> incl dq0 dq -> Inv R dq0 acc ->
+Lemma phase2_inv R dq0 : wf2 R -> forall ws dq sel acc S,
+  phase2 R ws dq sel acc = Ok S -> incl dq0 dq -> Inv R dq0 acc ->
   NoDup (List.map (nm R) S) /\ Forall (member_ok R dq0) S /\
   (forall n, In n (snd (fst acc)) -> In n (List.map (nm R) S)) /\
   (forall w, In w ws -> exists dq' i, incl dq0 dq' /\ In i (candidates R dq' w) /\ In (nm R i) (List.map (nm R) S)).
 Proof.
-  intros Hwf. induction ws as [|w ws IH]; intros scheds dq sel acc S H Hin HI.
+  intros Hwf. induction ws as [|w ws IH]; intros dq sel acc S H Hin HI.
   - simpl in H. inversion H; subst. destruct acc as [[ti tracked] depmap]. destruct HI as [H1 [H2 H3]]. cbn [fst snd].
     split; [exact H1|]. split; [exact H3|]. split; [intros n Hn; apply H2; exact Hn | intros w []].
   - cbn [phase2] in H.
-    destruct (get_pkg R w (hd [] scheds) dq sel (snd acc)) as [[[[dq' sel'] i] deps]| | |] eqn:EG; cbn [rbind] in H; try discriminate.
-    apply (get_pkg_spec R w (hd [] scheds) dq sel (snd acc) dq' sel' i deps dq0 Hwf Hin) in EG. destruct EG as [G1 [G2 [G3 G4]]].
+    destruct (get_pkg R w dq sel (snd acc)) as [[[[dq' sel'] i] deps]| | |] eqn:EG; cbn [rbind] in H; try discriminate.
+    apply (get_pkg_spec R w dq sel (snd acc) dq' sel' i deps dq0 Hwf Hin) in EG. destruct EG as [G1 [G2 [G3 G4]]].
     destruct (track_fold_inv R dq0 deps acc HI G4) as [J1 J2].
     destruct (track_inv R dq0 i _ J1 G3) as [K1 [K2 K3]].
-    specialize (IH _ _ _ _ _ H G1 K1). destruct IH as [L1 [L2 [L3 L4]]].
+    specialize (IH _ _ _ _ H G1 K1). destruct IH as [L1 [L2 [L3 L4]]].
     split; [exact L1|]. split; [exact L2|]. split.
     + intros n Hn. apply L3. apply K2. apply J2. exact Hn.
     + intros w' [<-|Hw'].
@@ -186,7 +294,7 @@ Proof.
 Qed.
 
 (* ---- what a successful resolution guarantees --------------------------------------------- *)
-Theorem resolve_ok R world dq0 scheds S : wf2 R -> resolve_with R world dq0 scheds = Ok S ->
+Theorem resolve_ok R world dq0 S : wf2 R -> resolve_with R world dq0 = Ok S ->
   NoDup (List.map (nm R) S) /\
   Forall (member_ok R dq0) S /\
   (forall w, In w world -> exists dq i, incl dq0 dq /\ In i (candidates R dq (cook_str w)) /\
@@ -394,9 +502,9 @@ Proof.
     cbv beta in L. rewrite String.eqb_refl in L. specialize (L eq_refl). simpl in Hn. simpl in L. simpl. lia.
 Qed.
 
-Lemma phase2_fuel R : wf R -> forall ws scheds dq sel acc, phase2 R ws scheds dq sel acc <> OutOfFuel.
+Lemma phase2_fuel R : wf R -> forall ws dq sel acc, phase2 R ws dq sel acc <> OutOfFuel.
 Proof.
-  intros Hwf. induction ws as [|w ws IH]; intros scheds dq sel acc; [simpl; discriminate|].
+  intros Hwf. induction ws as [|w ws IH]; intros dq sel acc; [simpl; discriminate|].
   cbn [phase2]. unfold get_pkg, get_pkg_core.
   destruct (resolve_package R dq w) as [i| | |] eqn:ER; cbn [rbind]; try discriminate.
   - apply (resolve_package_spec R dq w i Hwf) in ER. destruct ER as [_ [V _]].
@@ -406,11 +514,15 @@ Proof.
     { unfold measure, fuel_bound. pose proof (filter_length_le (fun n => negb (mem_str n [])) (names_of R)). lia. }
     specialize (NG M).
     destruct (get_deps (fuel_bound R) R i (s_pin w) [] _) as [[st' ds]| | |]; cbn [rbind]; try discriminate; [|congruence].
-    destruct (dedup_by_name R ds) as [l added]. cbn [rbind]. apply IH.
+    destruct (dedup_by_name R ds) as [l added] eqn:ED. cbn [rbind].
+    pose proof (iif_loop_fuel R (fuel_bound R) 0 l added (dedup_state_ok R ds l added ED)) as NI.
+    assert (M2 : S (List.length (names_of R)) < fuel_bound R + 0) by (unfold fuel_bound; lia). specialize (NI M2).
+    destruct (iif_loop (fuel_bound R) R 0 l added) as [deps| | |]; cbn [rbind]; try discriminate; [|congruence].
+    apply IH.
   - unfold resolve_package in ER. destruct (best_package R (s_name w) [] [] (s_pin w) (candidates R dq w)); discriminate.
 Qed.
 
-Theorem resolve_not_out_of_fuel R world dq0 scheds : wf R -> resolve_with R world dq0 scheds <> OutOfFuel.
+Theorem resolve_not_out_of_fuel R world dq0 : wf R -> resolve_with R world dq0 <> OutOfFuel.
 Proof.
   intros Hwf. unfold resolve_with.
   pose proof (constrain_not_oof R (List.map cook_dep world) dq0) as NC.
